@@ -255,6 +255,16 @@ def check(rep, tier, seed):
             rep.known(F14)
         else:
             bad.append((F14_WITNESS, "release", "hang", "hang"))
+    # negative lengths for zero-width element types (repaired by /repo 843c370): an error at once, in both profiles
+    negs = [{"env": "-", "cmd": "dec", "ty": t, "hex": h, "_len": len(h) // 2}
+            for t in ("(vec unit)", "(ll unit)", "(hset unit)", "(arr 0 unit)", "(arr 3 unit)", "(vec (box unit))")
+            for h in ("03", "05", "ffffffff0f07", "fdffffff0f")]
+    for prof, exe in (("release", harness), ("debug", hdebug)):
+        nres = run_side_with_hangs(exe, negs, wd, "neg_" + prof, ["--limit-ms=1500"], prof)
+        for c, a in zip(negs, nres):
+            if a != "err DeserializationFailure":
+                bad.append((c, prof, a, f"a negative element count is not rejected at once: {a}"))
+    rep.coverage["negative_count_witnesses"] = 2 * len(negs)
     # nesting depth: shallow and moderately deep inputs must decode; the abort on very deep ones is known finding F27
     deep = {}
     f27_listed = any(k.get("id") == "F27" for k in known.get("findings", []))
